@@ -67,6 +67,9 @@ from translate_fn import ANY, REC, LIST
 SPECS += [
     Spec(GROUP, "pdubase_mk", "toy.py", "PduBase.mk", [("data", BYTES)],
          records={"PduBase": {"pfb": REC("PFB"), "did": OPT(INT)}, "PFB": {"fmt": INT, "nad": BOOL, "did": BOOL, "pni": INT}}),
+    Spec(GROUP, "pdubase_enc", "toy.py", "PduBase.enc", [("tail", BYTES)],
+         binds=[("self.pfb", "pfb", REC("PFB")), ("self.did", "did", INT)],
+         records={"PFB": {"fmt": INT, "nad": BOOL, "did": BOOL, "pni": INT}}),
     Spec(GROUP, "batch3", "toy.py", "batch3", [("key", BYTES), ("data", BYTES), ("cfg", BYTES), ("step", INT)]),
     Spec(GROUP, "anyret", "toy.py", "anyret", [("x", INT)], ret=ANY),
 ]
